@@ -431,6 +431,8 @@ class Exe:
                 con = self.contracts.get(nm)
                 if nm in ('__builtin_expect',) or nm in self.hooks and getattr(self.hooks[nm], 'pure', False):
                     continue
+                if nm in self.contracts.get('__callbacks__', ()) and nm in self.tu.globals:
+                    continue        # effect-free user callback through a global function pointer
                 if con is not None and (con.get('pure') or (not con.get('inline') and not con.get('assigns'))):
                     continue
                 if con is not None and con.get('inline') and con.get('pure_inline'):
